@@ -250,14 +250,24 @@ func runSyncer(s *core.Sim, tier string, liveness bool) RunInfo {
 			// ordinary peers answer the next head request with a forged header; when that
 			// soft-fails against the trusted head the getter contract passes it on together
 			// with the soft error, and the Syncer has to find out by bifurcation
-			off := uint64(1 + s.Tape.Draw("forged-head-off", 4))
+			off := uint64(1 + s.Tape.Draw("forged-head-off", 9))
 			salt := uint64(i)
+			softShape := s.Tape.Coin("forged-head-soft-shape", 1, 2)
+			rng2 := s.Sub("forged-head")
 			w.G.HeadFault = func(n int, trusted *H) (*H, error, bool) {
 				w.G.HeadFault = nil
 				if trusted == nil {
 					return nil, nil, false
 				}
 				f := simhdr.ForgeSig(w.Ch.At(trusted.Height()+off), salt)
+				if softShape {
+					// a header whose own verification fails softly against anything, adjacent or
+					// not: the search for a verifiable path bottoms out without anybody vouching
+					f = simhdr.Clone(w.Ch.At(trusted.Height() + off))
+					f.Salt = salt
+					f.Shape = core.Pick(rng2, "soft-shape", []simhdr.Shape{simhdr.ShapeBareSoft, simhdr.ShapeWrappedSoft})
+					f.Sign()
+				}
 				bad[string(f.Hash())] = "forged-head"
 				s.Fault("forged-head-from-peers")
 				return f, nil, true
